@@ -28,7 +28,7 @@ func (m *minimiser) ok(cand *Scenario) bool {
 		limit = 90 * time.Second
 	}
 	v, harness := execFresh(m.c.ID(), cand, limit)
-	if m.class == "data-race" {
+	if m.class == "data-race" || cand.cfg("reproduces-only-sometimes") == 1 {
 		// not schedule-deterministic: give a candidate three chances to race
 		for i := 0; i < 2 && v == nil && harness == ""; i++ {
 			v, harness = execFresh(m.c.ID(), cand, limit)
